@@ -50,7 +50,7 @@ IO_CLASS = {"path-npz": "path", "path-noext": "path", "pathlib-npz": "path", "pa
 GRADS = ["none", "scalar", "nonscalar", "seed", "seed-bcast", "nulled"]
 LIVE = ["consumer", "intermediate", "terminal-kept", "reused"]
 VIEW_IDX = ["1:", "::-1", "...", "0", "reshape", "T", ":0"]
-VIEW_GRAPH = ["base-backward", "view-backward", "no-backward", "base-backward-read", "stale-cache"]
+VIEW_GRAPH = ["base-backward", "view-backward", "no-backward", "base-backward-read", "stale-cache", "both-backward"]
 _TMP = {"dir": None}
 
 
@@ -197,6 +197,13 @@ def build(desc):
             (v * wv).sum().backward()
             cache = 1  # clear_graph pulls the view gradient before dropping the creator
             own = None if v.constant else wv.astype(v.dtype)  # d(sum(v*wv))/dv
+        elif gmode == "both-backward":
+            # the view takes part in the graph *and* the base receives gradient by another route: the gradient that
+            # flowed through the view node alone (v._grad) differs from the public v.grad (the view of b.grad)
+            wv = _w(rng, v.shape, mode)
+            ((v * wv).sum() + (b * w).sum()).backward()
+            cache = 1
+            own = None if v.constant else wv.astype(v.dtype)
         elif gmode == "no-backward":
             pass
         is_view = v.base is not None
